@@ -1287,6 +1287,11 @@ class DenseSquareMatrix(InvertibleMatrix, ExplicitArrayMatrix):
                 transpose.
         """
         super().__init__(array.shape, _array=array)
+        if lu_and_piv is not None:
+            # precomputed factors are parameters too: make read-only like the array
+            for factor_array in lu_and_piv:
+                if isinstance(factor_array, np.ndarray):
+                    factor_array.flags.writeable = False
         self._lu_and_piv = lu_and_piv
         self._lu_transposed = lu_transposed
 
@@ -1351,6 +1356,9 @@ class InverseLUFactoredSquareMatrix(InvertibleMatrix, ImplicitArrayMatrix):
                 transpose of inverse of array.
         """
         super().__init__(inv_array.shape)
+        for param_array in (inv_array, *inv_lu_and_piv):
+            if isinstance(param_array, np.ndarray):
+                param_array.flags.writeable = False
         self._inv_array = inv_array
         self._inv_lu_and_piv = inv_lu_and_piv
         self._inv_lu_transposed = inv_lu_transposed
@@ -1431,6 +1439,8 @@ class DenseSymmetricMatrix(SymmetricMatrix, InvertibleMatrix, ExplicitArrayMatri
         super().__init__(array.shape, _array=array)
         if isinstance(eigvec, np.ndarray):
             eigvec = OrthogonalMatrix(eigvec)
+        if isinstance(eigval, np.ndarray):
+            eigval.flags.writeable = False
         self._eigvec = eigvec
         self._eigval = eigval
 
@@ -1553,6 +1563,8 @@ class EigendecomposedSymmetricMatrix(
         if isinstance(eigvec, np.ndarray):
             eigvec = OrthogonalMatrix(eigvec)
         super().__init__(eigvec.shape)
+        if isinstance(eigval, np.ndarray):
+            eigval.flags.writeable = False
         self._eigvec = eigvec
         self._eigval = eigval
         if not isinstance(eigval, np.ndarray) or eigval.size == 1:
